@@ -125,10 +125,17 @@ def gen_live_closure(rng):
         strategies.append({"name": "E1", "markets": list(range(n_markets)), "client": 0, "empty_filter": True})
     if rng.random() < 0.3:
         strategies.append({"name": "L2", "markets": list(range(n_markets)), "client": 0})
+    mode = rng.random()
+    if mode < 0.3:
+        # raw-data recorder mode: dict updates through a DataStream (with or without a market-book strategy beside it)
+        strategies.append({"name": "R3", "markets": list(range(n_markets)), "client": 0, "data_stream": True})
+        if mode < 0.12:
+            strategies = [s_ for s_ in strategies if s_["name"] not in ("L0", "L2")]
     sc = {"world": "B", "cfg": {"max_workers": 32}, "clients": [{"limit": 5000}], "markets": markets, "strategies": strategies, "tape": [0] * 400, "max_steps": 2000, "faults": {}, "exchange_events": []}
     mix = {"p_act": rng.choice([0.0, 0.5]), "p_place": 0.8, "w_cancel": 1, "w_update": 0, "w_replace": 0, "packages": False}
-    for mi in range(n_markets):
-        gen_actions(rng, markets[mi], "L0", mix)
+    if any(s_["name"] == "L0" for s_ in strategies):
+        for mi in range(n_markets):
+            gen_actions(rng, markets[mi], "L0", mix)
     return sc
 
 
